@@ -271,7 +271,10 @@ def rule_bounds(ck):
                 var = g.target.id if isinstance(g.target, ast.Name) else None
                 src_ok = canon(g.iter) == "infrastructure.allowable_pilots[infrastructure.get_station_index(session.station_id)]"
                 conds = set()
+                tests_ = []
                 for t in g.ifs:
+                    tests_ += list(t.values) if isinstance(t, ast.BoolOp) and isinstance(t.op, ast.And) else [t]
+                for t in tests_:
                     parts = []
                     if isinstance(t, ast.Compare):
                         l = t.left
